@@ -27,7 +27,7 @@ Definition wC_c10 : program :=
   {| p_getter := false; p_start := 0; p_pb := 13; p_body := (SCons (SIfElse 15 (COpaque (EIdent 1)) (SArrowStmt 23 29 (SCons (SThrow 31 ELit) SNil)) (SArrowStmt 48 54 (SCons (SThrow 56 ELit) SNil))) (SCons (SExpr 68 (ECall 3)) SNil)) |}.
 (* function f() { switch (d) { case 0: function v5() { return 1; } case 1: v999(); } } *)
 Definition wC_case_body := SCons (SFnDecl 36 5 50 (SCons (SRet 52 (Some ELit)) SNil)) SNil.
-Definition wC_case_cases := CCons 28 false false wC_case_body (CCons 64 false false (SCons (SExpr 72 (ECall 999)) SNil) CNil).
+Definition wC_case_cases := CCons 28 (Some ELit) false wC_case_body (CCons 64 (Some ELit) false (SCons (SExpr 72 (ECall 999)) SNil) CNil).
 Definition wC_case : program :=
   {| p_getter := false; p_start := 0; p_pb := 13; p_body := SCons (SSwitch 15 wC_case_cases) SNil |}.
 (* function f() { try { throw v1; } catch (e) { } v1; } *)
@@ -38,7 +38,7 @@ Definition wD_getter : program :=
   {| p_getter := true; p_start := 2; p_pb := 10; p_body := (SCons (STry 12 16 (SCons (SThrow 18 (EIdent 3)) SNil) (Some (30, 40)) SNil None SNil) SNil) |}.
 (* function f() { switch (d) { case 0: try { throw v3; } catch (e) { } case 1: v999(); } } *)
 Definition wD_case_body := SCons (STry 36 40 (SCons (SThrow 42 (EIdent 3)) SNil) (Some (54, 64)) SNil None SNil) SNil.
-Definition wD_case_cases := CCons 28 false false wD_case_body (CCons 68 false false (SCons (SExpr 76 (ECall 999)) SNil) CNil).
+Definition wD_case_cases := CCons 28 (Some ELit) false wD_case_body (CCons 68 (Some ELit) false (SCons (SExpr 76 (ECall 999)) SNil) CNil).
 Definition wD_case : program :=
   {| p_getter := false; p_start := 0; p_pb := 13; p_body := SCons (SSwitch 15 wD_case_cases) SNil |}.
 
